@@ -138,12 +138,16 @@ def _harness(tier, seed):
             except Exception as ex:
                 viol.append(("ordering/raises", {"x": perm}, repr(ex)))
         # ---- result tables and statistics
-        for tab in range(4 if tier == "quick" else 60):
+        for tab in range(9 if tier == "quick" else 63):
             records = []
             insts = [Instance.from_resource(nm) for nm in rng.sample(["a01", "a04", "a10", "beng01", "beng05"], 2)]
             algos = rng.sample(["rls", "ea_1p1", "rs", "hc2"], rng.randint(1, 3))
-            with_budget = rng.random() < 0.5
-            goal_mode = rng.choice(["none", "all", "mixed"])
+            # the table shapes are enumerated, not drawn: every run sees each combination of the optional columns
+            goal_mode = ("none", "all", "mixed")[tab % 3]
+            budget_mode = ("all", "none", "mixed")[(tab // 3) % 3]
+            with_budget = budget_mode != "none"
+            if "mixed" in (goal_mode, budget_mode) and len(algos) < 2:
+                algos = rng.sample(["rls", "ea_1p1", "rs", "hc2"], rng.randint(2, 3))
             for ai, algo in enumerate(algos):
                 objn = rng.choice(["binCount", "binCountAndLastEmpty", "binCountAndSmall"])
                 enc = rng.choice(["ibf1", "ibf2"])
@@ -160,10 +164,10 @@ def _harness(tier, seed):
                         objv = [o for o in (mk(inst) for mk in pr_.DEFAULT_OBJECTIVES) if str(o) == objn][0]
                         er = EndResult(algo, inst.name, objn, enc, rng.randint(0, 2 ** 62), int(objv.evaluate(y)),
                                        rng.randint(1, fes), rng.randint(0, 1000), fes, rng.randint(1000, 10 ** 6), goal,
-                                       fes if with_budget else None, None)
+                                       fes if (budget_mode == "all" or (budget_mode == "mixed" and ai != 0)) else None, None)
                         records.append(pr_.from_packing_and_end_result(er, y))
             f = os.path.join(scratch, f"res{tab}.csv")
-            info = {"algorithms": algos, "instances": [i.name for i in insts], "budget_column": with_budget, "goal": goal_mode,
+            info = {"algorithms": algos, "instances": [i.name for i in insts], "budget_column": budget_mode, "goal": goal_mode,
                     "records": len(records)}
             try:
                 pr_.to_csv(records, f)
